@@ -62,6 +62,7 @@ def plan(tier):
             sh = 1 if n <= 3 else NSHARD
             units += [('terms', sort, n, k, sh) for k in range(sh)]
     units += [('pairs', b['pair_nodes'], k, NSHARD) for k in range(NSHARD)]
+    units.append(('api', 0, 0, 1))
     return units
 
 
@@ -348,6 +349,28 @@ def check_event(pred, ctext, r=None):
     return problems
 
 
+def api_multiarg_objects():
+    """Function calls with several arguments (only the constructors can build them) with references in
+    every argument position."""
+    import hpl.ast as A
+
+    def fld(root, name):
+        return A.HplFieldAccess(root, name)
+
+    this, va = A.HplThisMessage(), A.HplVarReference('@A')
+    one = A.HplLiteral('1', 1)
+    cases = []
+    for f, nargs in (('max', 2), ('min', 3), ('gcd', 2), ('atan2', 2), ('log', 2), ('max', 4)):
+        for pos in range(nargs):
+            for root, name in ((A.HplVarReference('@A'), 'x'), (A.HplThisMessage(), 'x')):
+                args = [A.HplLiteral(str(k + 2), k + 2) for k in range(nargs)]
+                args[pos] = fld(root, name)
+                call = A.HplFunctionCall(f, tuple(args))
+                other = fld(A.HplVarReference('@A'), 'y') if pos % 2 == 0 else fld(A.HplThisMessage(), 'y')
+                cases.append(A.HplBinaryOperator('>', call, other))
+    return cases
+
+
 def check_term(t, sort, r=None):
     problems = []
     text = absyn.expr_text(t)
@@ -363,6 +386,16 @@ def check_term(t, sort, r=None):
             problems += check_replacements(p, 'pred', t, r)
             problems += check_negate(p, r)
             problems += check_event(p, text, r)
+            # E4 depth 2: a predicate derived from one that has already been negated must be negated afresh
+            from hpl.rewrite import replace_this_with_var, replace_var_with_this
+
+            for mk in (lambda: replace_var_with_this(p, 'A'), lambda: replace_this_with_var(p, 'Z')):
+                try:
+                    d = mk()
+                except Exception:  # noqa: BLE001
+                    continue
+                if d is not p:
+                    problems += [(k + ' (predicate derived from a negated one)', dd) for k, dd in check_negate(d, r)]
             if r is not None:
                 r.outcomes['predicate:' + absyn.lift(p)[0]] += 1
     return problems
@@ -388,6 +421,26 @@ def run(unit):
                 r.violation(kind, {'term': t, 'sort': sort, 'text': txt(t)}, detail, size=absyn.size(t))
             if i % 2003 == 0:
                 r.sample({'term': txt(t)})
+    elif unit[0] == 'api':
+        import hpl.ast as A
+
+        for e in api_multiarg_objects():
+            r.count('evaluations')
+            r.count('states')
+            label = str(e)
+            probs = check_replacements(e, 'expr', absyn.lift(e), r)
+            p = A.HplPredicateExpression(e)
+            probs += check_replacements(p, 'pred', absyn.lift(e), r)
+            probs += check_negate(p, r)
+            probs += check_event(p, label, r)
+            seen = set()
+            for kind, detail in probs:
+                if kind in seen:
+                    continue
+                seen.add(kind)
+                r.violation(kind + ' [API-built call with several arguments]', {'api': label}, detail, size=len(label))
+            r.count('validated')
+        r.sample({'api_built': 'max(@A.x, 3) > @A.y'})
     else:
         _, n, k, shards = unit
         g = pair_grammar()
@@ -415,6 +468,8 @@ def run(unit):
 def replay(w):
     from hplmc.checks.c08 import _detuple
 
+    if 'api' in w:
+        return [{'sig': v['sig'], 'detail': v['detail']} for v in run(('api', 0, 0, 1)).violations]
     if 'term' in w:
         return [{'sig': k, 'detail': d} for k, d in check_term(_detuple(w['term']), w['sort'])]
     t1, t2 = (_detuple(x) for x in w['pair'])
@@ -426,7 +481,7 @@ def replay(w):
 def describe(tier):
     b = bounds(tier)
     return {
-        'rule': f"every Bool/Num term with <= {b['nodes']} nodes over x @A.x @B.y 1 p @A.p True False xs @A.xs with + - = < and or implies not unary-minus abs len sum max, sets, ranges, xs[..], inclusion and both quantifiers (references therefore occur in operands, set elements, range bounds, indices, accessed objects, quantifier domains and bodies, function arguments); each as expression and (Bool) as predicate: both replacements for aliases Z (unused), A, B compared with the abstract substitution and by evaluation with the alias bound to the message, inverse law, negate, event alias rewriting; all ordered pairs of predicates with <= {b['pair_nodes']} nodes for join. x every valuation of the grid.",
+        'rule': f"every Bool/Num term with <= {b['nodes']} nodes over x @A.x @B.y 1 p @A.p True False xs @A.xs with + - = < and or implies not unary-minus abs len sum max, sets, ranges, xs[..], inclusion and both quantifiers (references therefore occur in operands, set elements, range bounds, indices, accessed objects, quantifier domains and bodies, function arguments); each as expression and (Bool) as predicate: both replacements for aliases Z (unused), A, B compared with the abstract substitution and by evaluation with the alias bound to the message, inverse law, negate (also of predicates derived from an already negated one), event alias rewriting through four construction routes; 32 API-built calls with several arguments (max / min / gcd / atan2 / log) with a reference in each argument position; all ordered pairs of predicates with <= {b['pair_nodes']} nodes for join. x every valuation of the grid.",
         'bounds': b,
         'exhaustive': True,
         'assumptions': ['reference evaluator; aliases captured by a quantifier are outside the alphabet (quantified variables are i, j)'],
